@@ -15,12 +15,6 @@ theorem C09_timeout (n : Nat) : probeTimeout n = n + max (n / 20) 1 ∧ n < prob
   unfold probeTimeout tolerance
   exact ⟨rfl, by omega⟩
 
-/-- … and that is the formula in the source -/
-theorem C09_consts :
-    Generated.formulas.contains ("timer-arg",
-      "time.Second * time.Duration($r.LogonSettings.HeartBtInt+int(math.Max(float64($r.LogonSettings.HeartBtInt/20), 1)))") = true
-    ∧ (Generated.formulas.filter (·.1 == "timer-arg")).length = 2 := by decide
-
 /-- a peer that sends something at least every N seconds never lets the inbound timer expire:
     if at every poll the last inbound message is at most `N` old, no poll fires -/
 theorem C09_live (N P : Nat) (s : TSt) (h : s.nextPoll P ≤ s.last + N) :
